@@ -524,9 +524,17 @@ def runCryptLine (r : Report) (sec : Nat) (key : Bytes) (limit : Int) (l : Line)
       let inner : Inner := fun _ => reply
       let C := oracleCipher table 0xEE
       let hk := kvStr a "hk"
-      let m0 := applyOutcome hk (cryptionHandler C limit key cl body inner)
-      let m1 := applyOutcome hk (cryptionHandler (oracleCipher table 0xDD) limit key cl body inner)
+      -- wk=fail:n / short:n: the underlying writer takes only the first n bytes of what flush writes
+      let wk := (kvStr a "wk").splitOn ":"
+      let part (m : Resp) : Resp := match wk with
+        | [_, n] => writtenPrefix (n.toNat?.getD 0) m
+        | _ => m
+      let m0 := part (applyOutcome hk (cryptionHandler C limit key cl body inner))
+      let m1 := part (applyOutcome hk (cryptionHandler (oracleCipher table 0xDD) limit key cl body inner))
       let r := { r with ops := r.ops + 1 }
+      let r := match wk with
+        | [k, n] => r.addCover s!"crypt-underlying-writer-{k}-{if (cryptionHandler C limit key cl body inner).body.length ≤ n.toNat?.getD 0 then "takes-everything" else "takes-a-prefix"}"
+        | _ => r
       let r := if m0.ran then r.addCover s!"crypt-handler-outcome-{if hk = "" then "ok" else hk}{if reply.isEmpty then "-no-reply" else "-reply"}" else r
       let frame := frameName cl body
       let content : Except String Bytes :=
@@ -572,7 +580,7 @@ def runCryptLine (r : Report) (sec : Nat) (key : Bytes) (limit : Int) (l : Line)
       let r := match cryptSeenMonitor C key cl body obs with
         | some msg => r.violation sec l.idx s!"{msg} [framing {frame}, limit {limit}] [{showResp obs}]"
         | none => if cl ≠ 0 ∧ obs.ran then r.addCover s!"crypt-seen-is-decryption-of-whole-body-{frame}" else r
-      if C.keyOk key ∧ wholeBody limit cl body then
+      if C.keyOk key ∧ wholeBody limit cl body ∧ part (cryptionHandler C limit key cl body inner) = cryptionHandler C limit key cl body inner then
         match cryptMonitor C key (properlyEncrypted C key body) reply obs with
         | some msg => r.violation sec l.idx s!"{msg} [framing {frame}] [{showResp obs}]"
         | none => if (properlyEncrypted C key body).isSome then r.addCover s!"crypt-roundtrip-checked-{frame}" else r
